@@ -1,4 +1,7 @@
-"""Python twins of spec/FnLib.tla (cross-checked against TLC by ``fnlib_crosscheck``)."""
+"""Python twins of spec/FnLib.tla (cross-checked against TLC by ``fnlib_crosscheck``).
+
+Formal parameters deliberately carry names that generated models also use (x, y, p, q, d1), in other positions:
+every translator that renames a function's parameters to model names is then exercised with overlapping names."""
 
 import numpy as np
 
@@ -11,24 +14,24 @@ def two():
     return 2.0
 
 
-def id(a):  # noqa: A001
-    return a
+def id(x):  # noqa: A001
+    return x
 
 
-def neg(a):
-    return -a
+def neg(y):
+    return -y
 
 
-def dbl(a):
-    return 2 * a
+def dbl(p):
+    return 2 * p
 
 
-def inc(a):
-    return a + 1
+def inc(q):
+    return q + 1
 
 
-def step(a):
-    return 1.0 if a > 2 else 0.0
+def step(x):
+    return 1.0 if x > 2 else 0.0
 
 
 def loopinc(a):
@@ -50,28 +53,28 @@ def dsum(d):
     return float(d.sum())
 
 
-def add(a, b):
-    return a + b
+def add(x, y):
+    return x + y
 
 
-def sub(a, b):
-    return a - b
+def sub(y, x):
+    return y - x
 
 
-def mul(a, b):
-    return a * b
+def mul(p, x):
+    return p * x
 
 
-def sel(a, b):
-    if a > b:
-        return a - b
-    return 3 * b
+def sel(q, p):
+    if q > p:
+        return q - p
+    return 3 * p
 
 
-def cut(a, b):
-    v = a
-    if a > b:
-        v = v - b
+def cut(y, d1):
+    v = y
+    if y > d1:
+        v = v - d1
     return v
 
 
@@ -79,8 +82,8 @@ def cap(a, b):
     return np.minimum(a, b)
 
 
-def mad(a, b, c):
-    return a * b + c
+def mad(x, p, y):
+    return x * p + y
 
 
 ARITY = {"one": 0, "two": 0, "id": 1, "neg": 1, "dbl": 1, "inc": 1, "step": 1, "dsum": 1, "loopinc": 1, "dflt": 1,
